@@ -67,6 +67,7 @@ func propC01(w *World, r *Report) {
 	r.Scope["reachable_source_functions"] = len(fns)
 	r.Rule("mapdet: every range over a map, maps.Keys/Values result, clock read, random source, go statement or select reachable from the writers is order-insensitive by a recognised pattern (keyed store with index injective in the map key, idempotent constant store, commutative integer reduction, min/max, collect-then-sort with a comparator that is total on the collected keys, deletion of the current key) and contains no call with side effects")
 	r.Conds["name-single-language"] = condNameSingleLanguage(w, fns)
+	RunSizeAgree(w, r, nil)
 	RunMapdet(w, e, r, "mapdet", fns)
 	r.Floor("mapdet", 20)
 }
